@@ -40,6 +40,8 @@ def cases(ctx):
         G = gen.random_cfg(rng, maxlen=rng.choice([2, 3, 4]))
         if not thorough or ctx.mine(i):
             yield {'G': G}
+    for i in range(30 if not thorough else 300):
+        yield {'G': gen.unit_chain_cfg(rng)}
     for nv in (24, 25, 26, 27):       # the 26-letter boundary of cfg_fresh_variable
         yield {'G': big_cfg(rng, nv), 'big': True}
     for i in range(6 if not thorough else 60):
